@@ -76,11 +76,20 @@ func (w mucJoinW) opts() []muc.Option {
 	if w.MaxChars != nil {
 		o = append(o, muc.MaxBytes(*w.MaxChars))
 	}
-	if w.Duration != nil {
+	switch {
+	case w.Duration != nil:
 		o = append(o, muc.Duration(*w.Duration))
+	case w.Seconds != nil && *w.Seconds <= uint64(1<<62)/uint64(time.Second):
+		// a decoded value: the option that yields the decoded number of seconds
+		o = append(o, muc.Duration(time.Duration(*w.Seconds)*time.Second))
 	}
-	if w.Since != nil {
+	switch {
+	case w.Since != nil:
 		o = append(o, muc.Since(*w.Since))
+	case w.SinceStr != nil:
+		if t, err := time.Parse(time.RFC3339Nano, *w.SinceStr); err == nil {
+			o = append(o, muc.Since(t))
+		}
 	}
 	if w.Password != "" {
 		o = append(o, muc.Password(w.Password))
